@@ -258,7 +258,7 @@ func zero(t types.Type) value {
 		}
 		return s
 	case *types.Chan:
-		return chan value(nil)
+		return (*schan)(nil)
 	case *types.Map:
 		return (*smap)(nil)
 	case *types.Signature:
@@ -856,7 +856,7 @@ func unop(fr *frame, instr *ssa.UnOp, x value) value {
 	}
 	switch instr.Op {
 	case token.ARROW: // receive
-		panic(engineAbort{"channel receive"})
+		return fr.chanRecv(x, instr.CommaOk)
 	case token.SUB:
 		switch x := x.(type) {
 		case int:
@@ -1005,6 +1005,7 @@ func callBuiltin(caller *frame, callpos token.Pos, fn *ssa.Builtin, args []value
 		return n
 
 	case "close": // close(chan T)
+		caller.chanClose(args[0])
 		return nil
 
 	case "delete": // delete(map[K]value, K)
@@ -1043,8 +1044,11 @@ func callBuiltin(caller *frame, callpos token.Pos, fn *ssa.Builtin, args []value
 			return len(x)
 		case *smap:
 			return x.len()
-		case chan value:
-			return len(x)
+		case *schan:
+			if x == nil {
+				return 0
+			}
+			return len(x.buf)
 		default:
 			panic(engineAbort{fmt.Sprintf("len: illegal operand: %T", x)})
 		}
@@ -1057,8 +1061,11 @@ func callBuiltin(caller *frame, callpos token.Pos, fn *ssa.Builtin, args []value
 			return cap((*x).(array))
 		case []value:
 			return cap(x)
-		case chan value:
-			return cap(x)
+		case *schan:
+			if x == nil {
+				return 0
+			}
+			return x.cap
 		default:
 			panic(fmt.Sprintf("cap: illegal operand: %T", x))
 		}
